@@ -21,6 +21,7 @@ def main():
     tier = "quick"
     if "--tier" in sys.argv:
         tier = sys.argv[sys.argv.index("--tier") + 1]
+    scratch = "--scratch" in sys.argv
     ids = args or sorted(d for d in os.listdir(os.path.join(V, "seeded")) if os.path.isdir(os.path.join(V, "seeded", d)))
     dirty = sh(f"git -C {REPO} status --porcelain --untracked-files=no").stdout.strip()
     if dirty:
@@ -35,6 +36,28 @@ def main():
         d = os.path.join(V, "seeded", sid)
         meta = json.load(open(os.path.join(d, "meta.json")))
         props = meta["property"] if isinstance(meta["property"], list) else [meta["property"]]
+        if scratch:
+            # while other jobs use /repo: apply the change to a scratch worktree and point the check at it
+            wt = "/tmp/seedrepo-" + sid
+            sh(f"git -C {REPO} worktree remove --force {wt}")
+            sh(f"git -C {REPO} worktree add --detach {wt} HEAD")
+            ap = sh(f"git -C {wt} apply {d}/patch.diff")
+            if ap.returncode != 0:
+                print(sid, "patch does not apply:", ap.stderr[:300])
+                results[sid] = dict(error="patch does not apply")
+                sh(f"git -C {REPO} worktree remove --force {wt}")
+                continue
+            for p in props + meta.get("also_run", []):
+                t0 = time.time()
+                r = sh(f"cd {V} && VERIF_REPO={wt} ./check {p} --tier {tier}", timeout=7200)
+                lines = [l for l in r.stdout.splitlines() if l.startswith("VIOLATION")]
+                detected = r.returncode == 1 and bool(lines)
+                results.setdefault(sid, {})[p] = dict(detected=detected, exit=r.returncode, violation=lines[:1], tier=tier,
+                                                       wall_s=round(time.time() - t0), tail=r.stderr.strip().splitlines()[-1:])
+                print(f"{sid:34s} {p} detected={detected} exit={r.returncode} {lines[:1]} ({time.time()-t0:.0f}s)", flush=True)
+            sh(f"git -C {REPO} worktree remove --force {wt}")
+            json.dump(results, open(res_path, "w"), indent=1)
+            continue
         before = set(sh(f"git -C {REPO} status --porcelain").stdout.splitlines())
         ap = sh(f"git -C {REPO} apply {d}/patch.diff")
         if ap.returncode != 0:
